@@ -107,6 +107,9 @@ def method_call(ex, o, fn, e, st):
                            exc='AttributeError', node=e))
             st = st.copy().assume(o.z != NULL)
         c = find_method_contract(t.cls, m)
+        alias = getattr(ex.c, 'callee_alias', {})
+        if c is not None and c.qualname in alias:
+            c = CONTRACTS[alias[c.qualname]]
         if c is None:
             # a callable stored in a field?
             r = find_field(t.cls, m)
@@ -215,12 +218,20 @@ def dict_method(ex, o, m, vals, fn, e, s):
     if m == 'keys' and isinstance(t, TRec):
         return [Res(s, o)]     # only used for `key in d.keys()`
     if m == 'keys' and isinstance(t, TDict):
-        return [Res(s, SV(t.keys_t, d_keys(t, o.z)))]
+        return [Res(s, SV(TKeys(t), o.z))]
     if m == 'items' and isinstance(t, TDict):
         return [Res(s, SV(TItems(t), o.z))]
     if m == 'values' and isinstance(t, TDict):
         return [Res(s, SV(TValues(t), o.z))]
     raise Unbound('dict.%s on %s (line %s)' % (m, t, e.lineno))
+
+
+class TKeys(Ty):
+    """d.keys(): membership = key test, iteration = insertion order"""
+
+    def __init__(self, d):
+        self.d = d
+        self.name = 'keys<%s>' % d.name
 
 
 class TItems(Ty):
@@ -327,6 +338,10 @@ def b_round(ex, vals, s, e):
 RND = z3.Function('rnd', z3.RealSort(), z3.IntSort(), z3.RealSort())
 ROUND = z3.Function('round_int', z3.RealSort(), z3.IntSort())
 
+# assumed library fact (CPython's round is correctly rounded): rounding to p digits is idempotent
+from .formula import AXIOM_SCHEMAS
+AXIOM_SCHEMAS['rnd'] = lambda app: [RND(app, app.arg(1)) == app]
+
 
 def b_abs(ex, vals, s, e):
     v = vals[0]
@@ -384,10 +399,18 @@ def b_tuple_list(ex, vals, s, e):
     v = vals[0]
     if isinstance(v.t, TList):
         return [X.Res(s, SV(v.t, v.t.mk(l_len(v.t, v.z), l_at(v.t, v.z), s.new_oid())))]
-    if isinstance(v.t, TDict):
-        k = d_keys(v.t, v.z)
-        return [X.Res(s, SV(v.t.keys_t, v.t.keys_t.mk(l_len(v.t.keys_t, k), l_at(v.t.keys_t, k), s.new_oid())))]
+    if isinstance(v.t, (TDict, TKeys)):
+        d = v.t.d if isinstance(v.t, TKeys) else v.t
+        k = d_keys(d, v.z)
+        return [X.Res(s, SV(d.keys_t, d.keys_t.mk(l_len(d.keys_t, k), l_at(d.keys_t, k), s.new_oid())))]
     raise Unbound('list()/tuple() of %s' % v.t)
+
+
+def b_sum(ex, vals, s, e):
+    v = vals[0]
+    if not isinstance(v.t, TList):
+        return [X.Res(s.copy().note('L%s: sum() of a non-iterable' % e.lineno), exc='TypeError', node=e)]
+    raise Unbound('sum of a list')
 
 
 def b_dict(ex, vals, s, e):
@@ -399,7 +422,7 @@ def b_dict(ex, vals, s, e):
 BUILTINS = {
     'len': b_len, 'isinstance': b_isinstance, 'type': b_type, 'min': b_minmax(True), 'max': b_minmax(False),
     'round': b_round, 'abs': b_abs, 'int': b_int, 'float': b_float, 'str': b_str, 'range': b_range,
-    'tuple': b_tuple_list, 'list': b_tuple_list, 'dict': b_dict,
+    'tuple': b_tuple_list, 'list': b_tuple_list, 'dict': b_dict, 'sum': b_sum,
 }
 
 
